@@ -343,6 +343,7 @@ func runC12(sc *C12Script) *sim.Outcome {
 			r.settle()
 			r.judgeEvents(m.A.SMP[nEv:], false, "its own StartAuthenticate")
 		case "vanswer":
+			delete(r.lastV, ref.TLVSMP2)
 			out, err := m.A.C.ProvideAuthenticationSecret(r.secretV)
 			m.fromA("ProvideAuthenticationSecret", nil, nil, out, err, m.A.Snap(), true)
 			if r.sh.state == "wait" {
@@ -357,10 +358,22 @@ func runC12(sc *C12Script) *sim.Outcome {
 				}
 				r.sh.state = "e3"
 			} else {
-				// an answer nobody asked for: the library replies with an abort message; allowed
+				// an answer nobody (validly) asked for: it must be refused, or answered with an abort at most
 				r.hits++
 				o.Class("answer-unasked")
 				r.sh.state = "e1"
+				r.settle()
+				if err == nil && r.lastV[ref.TLVSMP2] != nil {
+					sig := "C12/answered-without-request"
+					if r.sc.Cfg.V == 2 && r.degenerate {
+						sig = "C12/v2-no-group-check"
+					}
+					if sim.KnownOpen(sig) {
+						r.knownSig, r.knownMsg = sig, "ProvideAuthenticationSecret produced SMP message 2 for a request the specification's checks refuse: "+r.whyNot()
+					} else {
+						return o.Fail(sig, "ProvideAuthenticationSecret produced SMP message 2 although no acceptable request was pending (%s)", r.whyNot())
+					}
+				}
 			}
 			r.settle()
 			r.judgeEvents(m.A.SMP[nEv:], false, "an answer call")
@@ -786,6 +799,11 @@ func TestProp_C12_UserCalls(t *testing.T) {
 		{"r1", "r1", "rabort", "r1", "vanswer", "r3"},
 		{"vstart", "rabort", "vstart", "r2", "r4"},
 		{"r1", "vanswer", "vanswer", "rabort", "r1", "vanswer", "r3"},
+		{"r1", "r1*", "vanswer", "r3"},
+		{"r1", "r1*", "vanswer", "rabort", "r1", "vanswer", "r3"},
+		{"vstart", "r2*", "r2", "r4"},
+		{"vstart", "r2", "r2*", "r4"},
+		{"r1", "vanswer", "r1*", "r3"},
 	}
 	idx := 0
 	for _, v := range []int{3, 2} {
@@ -797,7 +815,11 @@ func TestProp_C12_UserCalls(t *testing.T) {
 				}
 				sc := &C12Script{Cfg: SessCfg{V: v, SeedA: 80, SeedB: 91, KeyA: 2, KeyB: 5}, Equal: true}
 				for _, k := range seq {
-					sc.Steps = append(sc.Steps, DStep{K: k, Q: q})
+					st := DStep{K: strings.TrimSuffix(k, "*"), Q: q}
+					if strings.HasSuffix(k, "*") {
+						st.F, st.V = 0, 2 // g2a / g2b := 1 without a matching proof
+					}
+					sc.Steps = append(sc.Steps, st)
 				}
 				o := sim.Judge(t, "C12usercalls", sc)
 				_ = o
